@@ -399,3 +399,18 @@ harness! {
         assert!(d.backlog.len() <= d.max_backlog_size, "C11 backlog never exceeds max_backlog_size after an insert");
     }
 }
+
+// clone() of the public TDigest (RefCell inside): independent copy (bounded: one concrete insert on either side)
+harness! {
+    #[kani::unwind(6)]
+    fn c19_td_clone_independent() {
+        let mut a = TDigest::new(K0::new(10.), 5);
+        a.insert_weighted(1.5, 2.0);
+        let mut b = a.clone();
+        let which: bool = any();
+        if which { a.insert_weighted(4.0, 1.0); } else { b.insert_weighted(4.0, 1.0); }
+        let untouched = if which { &b } else { &a };
+        let inner = untouched.inner.borrow();
+        assert!(inner.backlog.len() == 1 && inner.backlog[0].count == 2.0 && inner.n_samples == 1 && inner.max == 1.5, "C19 clone and original do not share state");
+    }
+}
